@@ -63,3 +63,334 @@ def gen_auxseries(T):
     T.write("AuxSeries", body)
     T.digest.append(f"AuxSeries: order={order} coeffs={len(coeffs)} ptrs[-1]={ptrs[-1]} rectRadius={[str(Fraction(x)) for x in rr]} "
                     f"authRadius={[str(Fraction(x)) for x in ar]} coeffs[0:6]={[str(Fraction(x)) for x in coeffs[:6]]}")
+
+
+# ----------------------------------------------------------------------------------------------------------------------
+# Carlson's algorithms in EllipticFunction.cpp -> Gen/Carlson.lean
+#
+# Extracted as *values* (a symbolic evaluation of the C++ expressions, so that an equivalent re-arrangement of a Horner form
+# gives the same table):
+#   * the numerator polynomials of the final series of RF (in E2, E3), RD and RJ (in E2..E5) as monomial tables, their
+#     denominators, and the multiplier of the accumulated sum `s` (3 for RD, 6 for RJ);
+#   * the weights of the mean A0 (RF: x y z; RJ: x y z p; RD: x y z), and the symmetric-function definitions E2..E5 of RD
+#     and RJ as polynomials in the deviations;
+#   * the eighth power of the tolerances tolRF / tolRD as a multiple of epsilon, tolRG0 / tolJAC squared, the trip caps and num_.
+# ----------------------------------------------------------------------------------------------------------------------
+import ast as _ast
+
+
+class _P:
+    """polynomial with Fraction coefficients in named symbols: {((sym, exp), ...): coeff}"""
+    def __init__(self, d=None):
+        self.d = {k: Fraction(v) for k, v in (d or {}).items() if v != 0}
+
+    @staticmethod
+    def const(c):
+        return _P({(): Fraction(c)})
+
+    @staticmethod
+    def sym(s):
+        return _P({((s, 1),): 1})
+
+    def __add__(self, o):
+        r = dict(self.d)
+        for k, v in o.d.items():
+            r[k] = r.get(k, 0) + v
+        return _P(r)
+
+    def __neg__(self):
+        return _P({k: -v for k, v in self.d.items()})
+
+    def __sub__(self, o):
+        return self + (-o)
+
+    def __mul__(self, o):
+        r = {}
+        for k1, v1 in self.d.items():
+            for k2, v2 in o.d.items():
+                e = dict(k1)
+                for s, n in k2:
+                    e[s] = e.get(s, 0) + n
+                k = tuple(sorted(e.items()))
+                r[k] = r.get(k, 0) + v1 * v2
+        return _P(r)
+
+    def isconst(self):
+        return all(k == () for k in self.d)
+
+    def cval(self):
+        return self.d.get((), Fraction(0))
+
+    def coeff(self, exps):
+        """coefficient of the monomial given as {sym: exp}"""
+        return self.d.get(tuple(sorted((s, n) for s, n in exps.items() if n)), Fraction(0))
+
+
+def _clean(e):
+    e = " ".join(e.split())
+    e = e.replace("numeric_limits<real>::epsilon()", "EPSILON")
+    e = re.sub(r"\b(?:real|T|double)\s*\(", "(", e)
+    e = re.sub(r"\bMath::sq\s*\(", "SQ(", e)
+    e = re.sub(r"\b[A-Za-z_]\w*::", "", e)
+    return e
+
+
+def _sym_eval(T, expr, env=None, funcs=None):
+    """evaluate a C++ arithmetic expression to a _P; identifiers are symbols unless in env; f(args) -> funcs[f]"""
+    env = env or {}
+    funcs = funcs or {}
+    try:
+        tree = _ast.parse(_clean(expr), mode="eval")
+    except SyntaxError:
+        raise T.Missing(f"cannot parse expression '{expr[:80]}'")
+
+    def ev(n):
+        if isinstance(n, _ast.Expression):
+            return ev(n.body)
+        if isinstance(n, _ast.Constant) and isinstance(n.value, (int, float)):
+            return _P.const(Fraction(str(n.value)))
+        if isinstance(n, _ast.Name):
+            return env[n.id] if n.id in env else _P.sym(n.id)
+        if isinstance(n, _ast.UnaryOp) and isinstance(n.op, _ast.USub):
+            return -ev(n.operand)
+        if isinstance(n, _ast.UnaryOp) and isinstance(n.op, _ast.UAdd):
+            return ev(n.operand)
+        if isinstance(n, _ast.BinOp):
+            a, b = ev(n.left), ev(n.right)
+            if isinstance(n.op, _ast.Add): return a + b
+            if isinstance(n.op, _ast.Sub): return a - b
+            if isinstance(n.op, _ast.Mult): return a * b
+            if isinstance(n.op, _ast.Div):
+                if b.isconst() and b.cval() != 0:
+                    return a * _P.const(1 / b.cval())
+                # division by a monomial: negative exponents
+                if len(b.d) == 1:
+                    (k, v), = b.d.items()
+                    return a * _P({tuple((s, -m) for s, m in k): 1 / v})
+        if isinstance(n, _ast.Call) and isinstance(n.func, _ast.Name):
+            args = [ev(x) for x in n.args]
+            if n.func.id == "SQ" and len(args) == 1:
+                return args[0] * args[0]
+            if n.func.id in funcs:
+                return funcs[n.func.id](*args)
+            if len(args) == 1 and len(args[0].d) == 1 and list(args[0].d.values())[0] == 1 and len(list(args[0].d)[0]) == 1:
+                # f(symbol) becomes the symbol f_symbol
+                return _P.sym(n.func.id + "_" + list(args[0].d)[0][0][0])
+        raise T.Missing(f"unsupported expression '{expr[:80]}'")
+    return ev(tree)
+
+
+def _func_body(T, txt, name, nparams):
+    """body of EllipticFunction::name with `nparams` parameters"""
+    for m in re.finditer(r"EllipticFunction::" + name + r"\s*\(([^)]*)\)\s*(?:const\s*)?\{", txt):
+        if len([p for p in m.group(1).split(",") if p.strip()]) == nparams:
+            i = m.end() - 1
+            depth, j = 0, i
+            while j < len(txt):
+                if txt[j] == "{": depth += 1
+                elif txt[j] == "}":
+                    depth -= 1
+                    if depth == 0:
+                        return txt[i + 1:j]
+                j += 1
+    raise T.Missing(f"EllipticFunction::{name} with {nparams} parameters not found")
+
+
+def _decls(body):
+    """`name = expr` pieces of the declarations / assignments of a function body (top level of the statements)"""
+    out = {}
+    # strip loop bodies: keep statements at brace depth 0
+    flat, depth = "", 0
+    for ch in body:
+        if ch == "{":
+            if depth == 0:      # drop the header of the compound statement (for (...), if (...), ...)
+                flat = flat[:flat.rfind(";") + 1]
+            depth += 1
+        elif ch == "}": depth -= 1
+        elif depth == 0: flat += ch
+    for stmt in flat.split(";"):
+        stmt = re.sub(r"^\s*(?:static\s+)?(?:const\s+)?real\b", "", stmt.strip())
+        for piece in _split_top(stmt):
+            mm = re.match(r"^\s*([A-Za-z_]\w*)\s*=\s*(.+)$", piece, flags=re.S)
+            if mm and mm.group(1) not in out:
+                out[mm.group(1)] = mm.group(2)
+    return out
+
+
+def _split_top(s):
+    out, depth, cur = [], 0, ""
+    for ch in s:
+        if ch in "([{": depth += 1
+        if ch in ")]}": depth -= 1
+        if ch == "," and depth == 0:
+            out.append(cur); cur = ""
+        else:
+            cur += ch
+    out.append(cur)
+    return out
+
+
+def _lean_rat1(fr):
+    fr = Fraction(fr)
+    return f"({fr.numerator} : Rat)" if fr.denominator == 1 else f"(({fr.numerator} : Rat) / {fr.denominator})"
+
+
+def gen_carlson(T):
+    txt = T.preprocess("src/EllipticFunction.cpp")
+    hdr = T.preprocess("include/GeographicLib/EllipticFunction.hpp")
+    out = "namespace GeoVerif.Gen.Carlson\n"
+    dig = []
+
+    def series(name, nparams, esyms, dev):
+        """final series of RF / RD / RJ: numerator table, denominator, multiplier of s, mean weights, E-definitions"""
+        nonlocal out
+        body = _func_body(T, txt, name, nparams)
+        rets = re.findall(r"\breturn\b([^;]+);", body)
+        if not rets:
+            raise T.Missing(f"{name}: no return statement")
+        ret = rets[-1]
+        # numerator: everything before the top-level '/'; the rest is the denominator (and `+ k * s`)
+        depth, cut = 0, None
+        for i, ch in enumerate(ret):
+            if ch in "([": depth += 1
+            elif ch in ")]": depth -= 1
+            elif ch == "/" and depth == 0:
+                cut = i; break
+        if cut is None:
+            raise T.Missing(f"{name}: the return expression is not a quotient")
+        num = _sym_eval(T, ret[:cut])
+        rest = ret[cut + 1:]
+        # denominator = first parenthesised group of the rest
+        j0 = rest.index("("); depth = 0
+        for j in range(j0, len(rest)):
+            if rest[j] == "(": depth += 1
+            elif rest[j] == ")":
+                depth -= 1
+                if depth == 0:
+                    break
+        den = _sym_eval(T, rest[j0:j + 1])
+        tail = rest[j + 1:].strip()
+        if len(den.d) != 1:
+            raise T.Missing(f"{name}: denominator is not a monomial")
+        (dk, dv), = den.d.items()
+        want = {"sqrt_An": 1} if name == "RF" else {"sqrt_An": 1, "An": 1, "mul": 1}
+        if dict(dk) != want or dv.denominator != 1:
+            raise T.Missing(f"{name}: denominator {dict(dk)} x {dv} is not the expected scaling {want}")
+        smul = 0
+        if tail:
+            tl = _sym_eval(T, "0" + tail)
+            smul = tl.coeff({"s": 1})
+            if tl.d.keys() - {(("s", 1),)} or smul.denominator != 1:
+                raise T.Missing(f"{name}: unexpected trailing term '{tail}'")
+        mons = []
+        for k, v in sorted(num.d.items()):
+            e = dict(k)
+            if set(e) - set(esyms) or v.denominator != 1:
+                raise T.Missing(f"{name}: numerator is not an integer polynomial in {esyms}")
+            mons.append(([e.get(s, 0) for s in esyms], int(v)))
+        mons.sort()
+        out += f"/-- numerator of the final series of `{name}`: (exponents of {', '.join(esyms)}; coefficient) -/\n"
+        out += f"def {name.lower()}Poly : List (List Nat × Int) := [" + ", ".join(f"([{', '.join(map(str, e))}], {T.lean_int(c)})" for e, c in mons) + "]\n"
+        out += f"def {name.lower()}Den : Int := {int(dv)}\n"
+        out += f"def {name.lower()}SumMul : Int := {int(smul)}\n"
+        d = _decls(body)
+        if "A0" not in d:
+            raise T.Missing(f"{name}: A0 not found")
+        a0 = _sym_eval(T, d["A0"])
+        args = ["x", "y", "z", "p"][:nparams]
+        w = [a0.coeff({s: 1}) for s in args]
+        if sum(abs(v) for v in a0.d.values()) != sum(abs(x) for x in w):
+            raise T.Missing(f"{name}: A0 is not a linear combination of the arguments")
+        out += f"/-- weights of the mean `A0` in {', '.join(args)} -/\ndef {name.lower()}Mean : List Rat := {T.lean_ratlist(w)}\n"
+        # E2.. as polynomials in the independent deviations (dev), after substituting the dependent one
+        env = {}
+        for nm in ["Z", "P"]:
+            if nm in d and nm not in dev:
+                env[nm] = _sym_eval(T, d[nm], env)
+        edefs = []
+        for s in esyms:
+            if s not in d:
+                raise T.Missing(f"{name}: {s} not found")
+            p = _sym_eval(T, d[s], env)
+            env[s] = p
+            rows = []
+            for k, v in sorted(p.d.items()):
+                e = dict(k)
+                if set(e) - set(dev):
+                    raise T.Missing(f"{name}: {s} is not a polynomial in {dev}")
+                rows.append(([e.get(t, 0) for t in dev], v))
+            rows.sort()
+            edefs.append(rows)
+        out += f"/-- `{', '.join(esyms)}` of `{name}` as polynomials in {', '.join(dev)} (exponents; coefficient) -/\n"
+        out += f"def {name.lower()}Edefs : List (List (List Nat × Rat)) := [" + ", ".join(
+            "[" + ", ".join(f"([{', '.join(map(str, e))}], {_lean_rat1(c)})" for e, c in rows) + "]" for rows in edefs) + "]\n"
+        # the dependent deviation(s)
+        deps = []
+        for nm in ["Z", "P"]:
+            if nm in env and nm not in esyms:
+                p = env[nm]
+                deps.append([p.coeff({t: 1}) for t in dev])
+        out += f"/-- the dependent deviation (`Z` resp. `P`) as a linear form in {', '.join(dev)} -/\n"
+        out += f"def {name.lower()}Dep : List (List Rat) := [" + ", ".join(T.lean_ratlist(r) for r in deps) + "]\n"
+        mt = re.search(r"trip\s*<\s*(\d+)", body)
+        if not mt:
+            raise T.Missing(f"{name}: trip cap not found")
+        out += f"def {name.lower()}Trips : Nat := {int(mt.group(1))}\n"
+        dig.append(f"{name}: {len(mons)} monomials den={int(dv)} smul={int(smul)} mean={[str(x) for x in w]} trips={mt.group(1)}")
+        return body, d
+
+    def tol_pow8(body, nm):
+        m = re.search(nm + r"\s*=\s*pow\s*\((.+?),\s*1\s*/\s*real\s*\(\s*(\d+)\s*\)\s*\)\s*;", body, flags=re.S)
+        if not m:
+            raise T.Missing(f"{nm} = pow(..., 1/real(n)) not found")
+        p = _sym_eval(T, m.group(1))
+        c = p.coeff({"EPSILON": 1})
+        if set(p.d) != {(("EPSILON", 1),)}:
+            raise T.Missing(f"{nm}: argument of pow is not a multiple of epsilon")
+        return c, int(m.group(2))
+
+    def tol_sqrt(body, nm):
+        m = re.search(nm + r"\s*=\s*(.*?)sqrt\s*\((.+?)\)\s*;", body, flags=re.S)
+        if not m:
+            raise T.Missing(f"{nm} = [c *] sqrt(...) not found")
+        pre = m.group(1).strip().rstrip("*").strip()
+        c = _sym_eval(T, pre).cval() if pre else Fraction(1)
+        p = _sym_eval(T, m.group(2))
+        if set(p.d) != {(("EPSILON", 1),)}:
+            raise T.Missing(f"{nm}: argument of sqrt is not a multiple of epsilon")
+        return c, p.coeff({"EPSILON": 1})
+
+    brf, _ = series("RF", 3, ["E2", "E3"], ["X", "Y"])
+    brd, _ = series("RD", 3, ["E2", "E3", "E4", "E5"], ["X", "Y"])
+    brj, _ = series("RJ", 4, ["E2", "E3", "E4", "E5"], ["X", "Y", "Z"])
+    c, n = tol_pow8(brf, "tolRF")
+    out += f"/-- `tolRF ^ {n} = c · epsilon` -/\ndef tolRFpow : Nat := {n}\ndef tolRFcoef : Rat := {_lean_rat1(c)}\n"
+    dig.append(f"tolRF^{n}={c}eps")
+    for nm, b in (("RD", brd), ("RJ", brj)):
+        c, n = tol_pow8(b, "tolRD")
+        out += f"def tol{nm}pow : Nat := {n}\ndef tol{nm}coef : Rat := {_lean_rat1(c)}\n"
+        dig.append(f"tolRD({nm})^{n}={c}eps")
+    for nm, fn, k in (("RF2", "RF", 2), ("RG2", "RG", 2)):
+        b = _func_body(T, txt, fn, k)
+        c, e = tol_sqrt(b, "tolRG0")
+        mt = re.search(r"trip\s*<\s*(\d+)", b)
+        if not mt:
+            raise T.Missing(f"{fn}(x, y): trip cap not found")
+        out += f"/-- `tolRG0 = c · sqrt(e · epsilon)` in the two-argument `{fn}` -/\ndef tol{nm}fac : Rat := {_lean_rat1(c)}\ndef tol{nm}eps : Rat := {_lean_rat1(e)}\ndef {nm.lower()}Trips : Nat := {int(mt.group(1))}\n"
+        dig.append(f"tolRG0({nm})={c}*sqrt({e}eps)")
+    for fn, k, nm in (("sncndn", 4, "Sncndn"), ("Einv", 1, "Einv")):
+        b = _func_body(T, txt, fn, k)
+        c, e = tol_sqrt(b, "tolJAC")
+        out += f"def tolJAC{nm}fac : Rat := {_lean_rat1(c)}\ndef tolJAC{nm}eps : Rat := {_lean_rat1(e)}\n"
+    b = _func_body(T, txt, "am", 1)
+    m = re.search(r"tolJAC\s*=\s*pow\s*\(\s*numeric_limits<real>::epsilon\(\)\s*,\s*real\s*\(\s*([0-9.]+)\s*\)\s*\)", b)
+    if not m:
+        raise T.Missing("am: tolJAC = pow(epsilon, real(c)) not found")
+    out += f"/-- `tolJAC = epsilon ^ c` in `am` -/\ndef tolJACamExp : Rat := {_lean_rat1(Fraction(m.group(1)))}\n"
+    m = re.search(r"enum\s*\{\s*num_\s*=\s*(\d+)\s*\}", hdr)
+    if not m:
+        raise T.Missing("EllipticFunction::num_ not found")
+    out += f"def num : Nat := {int(m.group(1))}\n"
+    out += "end GeoVerif.Gen.Carlson\n"
+    T.write("Carlson", out)
+    T.digest.append("Carlson: " + "; ".join(dig) + f"; num_={m.group(1)}")
